@@ -694,3 +694,12 @@ func existenceProbedBeforeCreate(c *eng.Ctx, fnKey, pageRecv string) {
 		c.Check(!after, fmt.Sprintf("probe-before-acquire[%d]", i), pr.Instr, f, "the meta page file is probed before AcquirePage creates it", detail)
 	}
 }
+
+func keysOfBool(m map[string]bool) string {
+	var ks []string
+	for k := range m {
+		ks = append(ks, k)
+	}
+	sort.Strings(ks)
+	return strings.Join(ks, ", ")
+}
